@@ -42,8 +42,8 @@ func (vx *Vaxis) NewStyledString(s string, defaultStyle Style) *StyledString {
 				continue
 			}
 			params := strings.Split(seq, ";")
-			for _, param := range params {
-				subs := strings.Split(param, ":")
+			for i := 0; i < len(params); i += 1 {
+				subs := strings.Split(params[i], ":")
 				switch subs[0] {
 				case "0":
 					style = defaultStyle
@@ -113,6 +113,12 @@ func (vx *Vaxis) NewStyledString(s string, defaultStyle Style) *StyledString {
 					style.Foreground = IndexColor(7)
 				case "38":
 					switch len(subs) {
+					case 1:
+						// legacy semicolon form
+						if c, n := legacySGRColor(params[i+1:]); n > 0 {
+							style.Foreground = c
+							i += n
+						}
 					case 3:
 						idx, _ := strconv.Atoi(subs[2])
 						style.Foreground = IndexColor(uint8(idx))
@@ -142,6 +148,12 @@ func (vx *Vaxis) NewStyledString(s string, defaultStyle Style) *StyledString {
 					style.Background = IndexColor(7)
 				case "48":
 					switch len(subs) {
+					case 1:
+						// legacy semicolon form
+						if c, n := legacySGRColor(params[i+1:]); n > 0 {
+							style.Background = c
+							i += n
+						}
 					case 3:
 						idx, _ := strconv.Atoi(subs[2])
 						style.Background = IndexColor(uint8(idx))
@@ -155,6 +167,12 @@ func (vx *Vaxis) NewStyledString(s string, defaultStyle Style) *StyledString {
 					style.Background = 0
 				case "58":
 					switch len(subs) {
+					case 1:
+						// legacy semicolon form
+						if c, n := legacySGRColor(params[i+1:]); n > 0 {
+							style.UnderlineColor = c
+							i += n
+						}
 					case 3:
 						idx, _ := strconv.Atoi(subs[2])
 						style.UnderlineColor = IndexColor(uint8(idx))
@@ -221,6 +239,23 @@ func (vx *Vaxis) NewStyledString(s string, defaultStyle Style) *StyledString {
 	}
 
 	return ss
+}
+
+// legacySGRColor parses the parameters that follow a bare 38, 48 or 58 in the
+// legacy semicolon-separated form: "5;n" or "2;r;g;b". It returns the color
+// and the number of parameters it used, or 0 if they are malformed
+func legacySGRColor(params []string) (Color, int) {
+	switch {
+	case len(params) >= 2 && params[0] == "5":
+		idx, _ := strconv.Atoi(params[1])
+		return IndexColor(uint8(idx)), 2
+	case len(params) >= 4 && params[0] == "2":
+		r, _ := strconv.Atoi(params[1])
+		g, _ := strconv.Atoi(params[2])
+		b, _ := strconv.Atoi(params[3])
+		return RGBColor(uint8(r), uint8(g), uint8(b)), 4
+	}
+	return 0, 0
 }
 
 // Returns the rendered width of the styled string
